@@ -263,14 +263,26 @@ func (st *State) heapTyping(name, h string) {
 func (st *State) noteWrite(name, idTerm string) {
 	if r := st.fc.rec; r != nil {
 		r.heaps[name] = true
+		r.noted[name] = true
+		delete(r.unknown, name)
 		r.writes[name] = append(r.writes[name], idTerm)
 	}
 }
 
-func (st *State) heapSet(name, sort, term string) {
+// heapSet installs a new version of a heap; id is the array id / reference whose row changed ("" = unknown).
+func (st *State) heapSet(name, sort, term string, id ...string) {
 	st.fc.heapSorts[name] = sort
 	if r := st.fc.rec; r != nil {
 		r.heaps[name] = true
+		if len(id) == 0 {
+			if !r.noted[name] {
+				r.unknown[name] = true
+			}
+		} else {
+			for _, x := range id {
+				r.writes[name] = append(r.writes[name], x)
+			}
+		}
 	}
 	st.heap[name] = st.define("H_"+name, sort, term)
 }
